@@ -98,23 +98,6 @@ Proof.
   - subst inf. exact S.
 Qed.
 
-(* printing direction, round-trip clause: a decimal accepted by shortest_check converts back to the same float *)
-Theorem shortest_check_roundtrip : forall f abits sig exp, wf_fmt f -> in_window sig exp ->
-  shortest_check f abits sig exp = true ->
-  exists k, k_of_bits f abits = Some k /\ 0 < k /\ 0 < sig /\
-            let '(N, D) := scaled_dec f sig exp in rounds_to_spec f N D (RFin k).
-Proof.
-  intros f abits sig exp W Hw H. unfold shortest_check in H.
-  destruct (k_of_bits f abits) as [k|] eqn:Ek; [|discriminate].
-  repeat (apply andb_true_iff in H as [H ?]).
-  apply Z.ltb_lt in H. exists k. split; [reflexivity|]. split; [exact H|].
-  match goal with Hs : (0 <? sig) = true |- _ => apply Z.ltb_lt in Hs end.
-  split; [assumption|].
-  match goal with Hr : rounds_to f k sig exp = true |- _ => unfold rounds_to in Hr;
-    destruct (rne_dec f sig exp) as [k'| |] eqn:E; try discriminate; apply Z.eqb_eq in Hr; subst k' end.
-  pose proof (rne_dec_sound f sig exp _ W ltac:(lia) Hw E ltac:(discriminate)) as S. exact S.
-Qed.
-
 Example nearest_check_example :
   nearest_double_check [48;46;49]%N false 4591870180066957722 = true /\
   nearest_double_check [49;101;52;48;48]%N true 0 = true /\
